@@ -1000,6 +1000,13 @@ class Terms(object):
             return ("tuple", ("index", t[2][0]), self._elem(t[2][0]))
         if t[0] == "call" and t[1] == ("global", "zip"):
             return ("tuple",) + tuple(self._elem(a) for a in t[2])
+        if t[0] in ("call", "callv") and t[1] in (
+                ("attr", ("global", "itertools"), "product"),
+                ("global", "product"),
+                ("global", "itertools.product")) and t[2] and not t[3]:
+            # the elements of product(a, b) are what nested loops over a and
+            # b visit, in the same order
+            return ("tuple",) + tuple(self._elem(a) for a in t[2])
         if t[0] in ("tuple", "list", "set") and len(t) > 1:
             return _phi(t[1:])
         if t[0] == "call" and t[1] in (("global", "sorted"),
@@ -1948,11 +1955,31 @@ def chunk_index(t, size, const):
     """The iterable of chunk start offsets when ``t`` is the running number
     of the chunk in spelling (b) of chunked(): ("index", range(0, n, size))."""
     if t[0] == "index":
+        it = t[1]
+        # the position in a list of chunks made by a comprehension over the
+        # start offsets is the position in those offsets
+        if it[0] == "new":
+            it = it[2]
+        if it[0] in ("listcomp", "genexp") and len(it[2]) == 1 and \
+                not it[2][0][1]:
+            it = it[2][0][0]
         m = match(("call", ("global", "range"), (V("a"), V("b"), V("c")), ()),
-                  t[1])
+                  it)
         if m is not None and const(m["a"]) == 0 and const(m["c"]) == size:
             return m["b"]
     return None
+
+
+def chunk_offsets(t):
+    """The iterable of start offsets behind the running chunk number ``t``
+    (see chunk_index)."""
+    it = t[1]
+    if it[0] == "new":
+        it = it[2]
+    if it[0] in ("listcomp", "genexp") and len(it[2]) == 1 and \
+            not it[2][0][1]:
+        it = it[2][0][0]
+    return it
 
 
 def concat_parts(T, t):
